@@ -80,7 +80,7 @@ Definition clause_C08 (c : case) : nat :=
 
 Definition class_C08 (c : case) : nat :=
   match c with
-  | CFb _ L _ _ => if cls_order_zero L then 2%nat else 0%nat
+  | CFb _ L _ _ => 0%nat     (* both descriptor classes were repaired (1a5deb0, 0d0f450) *)
   | CFrag sf entries _ _ _ => class_entries sf entries
   | CWhole base tr layers laa _ _ _ _ =>
       match class_layers laa layers with
